@@ -84,7 +84,7 @@ func ieInto(v reflect.Value, e *ie) {
 		}
 	}
 	if f := v.FieldByName("Buffer"); f.IsValid() {
-		f.SetBytes(append([]byte{}, e.Oct...))
+		f.SetBytes(hk.Exact(e.Oct))
 	}
 }
 
@@ -366,7 +366,7 @@ func decodeMsg(mi msgInfo, in []byte) (res decRes, obj interface{}) {
 
 func encodeObj(mi msgInfo, obj interface{}, prefix []byte) (class string, out []byte) {
 	meth := reflect.ValueOf(obj).MethodByName("Encode" + mi.Name)
-	b := bytes.NewBuffer(append([]byte{}, prefix...))
+	b := bytes.NewBuffer(hk.Exact(prefix))
 	var err error
 	panicked, _ := hk.Catch(func() {
 		o := meth.Call([]reflect.Value{reflect.ValueOf(b)})
@@ -521,7 +521,7 @@ func run(r *hk.Run) {
 		}
 		// C10: no aliasing between input and message; determinism; append-only encoding
 		if prop == "C10" {
-			in2 := append([]byte{}, in...)
+			in2 := hk.Exact(in)
 			objA := m.New()
 			methA := reflect.ValueOf(objA).MethodByName("Decode" + m.Name)
 			methA.Call([]reflect.Value{reflect.ValueOf(&in2)})
@@ -533,7 +533,7 @@ func run(r *hk.Run) {
 				fail(r, "C10", site, "aliases-input", hk.Hex(in), "mutating the input after decoding changed the message")
 			}
 			// mutate message buffers, input must stay
-			in3 := append([]byte{}, in...)
+			in3 := hk.Exact(in)
 			objB := m.New()
 			reflect.ValueOf(objB).MethodByName("Decode" + m.Name).Call([]reflect.Value{reflect.ValueOf(&in3)})
 			sv := reflect.ValueOf(objB).Elem()
@@ -560,7 +560,7 @@ func run(r *hk.Run) {
 			}
 			pre := r.Rng.Bytes(1 + r.Rng.Intn(9))
 			cP, bP := encodeObj(m.msgInfo, obj, pre)
-			if cP != "ok" || !bytes.Equal(bP, append(append([]byte{}, pre...), b1...)) {
+			if cP != "ok" || !bytes.Equal(bP, append(hk.Exact(pre), b1...)) {
 				fail(r, "C10", site, "not-append-only", hk.Hex(in), "encoding into a non-empty buffer is not prefix ++ encoding")
 			}
 			if !eqMsg(getMsg(obj), res.msg) {
@@ -572,7 +572,7 @@ func run(r *hk.Run) {
 	quick := !r.Thorough()
 	wantDec := prop == "C01" || prop == "C03" || prop == "C04" || prop == "C10"
 	wantEnc := prop == "C02" || prop == "C04" || prop == "C10" || prop == "C03"
-	wantDisp := prop == "C05" || prop == "C01" || prop == "C10"
+	wantDisp := prop == "C05" || prop == "C01" || prop == "C10" || prop == "C02"
 	lean := prop == "C03" // needs accepted inputs, not every truncation (C10 quantifies over rejected inputs too)
 	decStreams := func() {
 		// S1 corpus: the repository's own vectors, through the message decoders
@@ -653,8 +653,21 @@ func run(r *hk.Run) {
 					} else {
 						w = s.validWire(r.Rng, l)
 					}
-					full := append(append([]byte{}, prefix...), w...)
+					full := append(hk.Exact(prefix), w...)
 					decCase("directed", m, full, true)
+					if !s.Mand && l > 0 && s.contentLen(l) > 0 {
+						// the same element with all-zero and with all-ones content (trailing zero octets,
+						// spare bits: what a re-encoder might be tempted to trim or mask)
+						for _, fill := range []byte{0x00, 0xff} {
+							ct := bytes.Repeat([]byte{fill}, s.contentLen(l))
+							decCase("directed-fill", m, append(hk.Exact(prefix), s.wire(r.Rng, l, ct)...), true)
+							if len(ct) > 1 {
+								ct2 := r.Rng.Bytes(len(ct))
+								ct2[len(ct2)-1] = fill
+								decCase("directed-fill", m, append(hk.Exact(prefix), s.wire(r.Rng, l, ct2)...), true)
+							}
+						}
+					}
 					if prop == "C04" && s.HasLen {
 						// the pinned table decides: a declared length outside its bounds is an error,
 						// one inside them (content complete) is accepted
@@ -680,7 +693,7 @@ func run(r *hk.Run) {
 					cuts[(start+len(full))/2] = true
 					if !s.Mand {
 						// followed by another element / an unknown octet
-						decCase("directed", m, append(append([]byte{}, full...), 0x00), true)
+						decCase("directed", m, append(hk.Exact(full), 0x00), true)
 					}
 					for c := range cuts {
 						if c >= 0 && c < len(full) && !lean {
@@ -784,7 +797,7 @@ func run(r *hk.Run) {
 								}
 							}
 						} else {
-							full = append(append([]byte{}, base...), s.validWire(r.Rng, l)...)
+							full = append(hk.Exact(base), s.validWire(r.Rng, l)...)
 						}
 						decCase("sweep", m, full, true)
 						if l > 0 && len(full) > 0 {
